@@ -1,9 +1,11 @@
+pub mod c02;
 pub mod c15;
 
 use crate::report::{PropSpec, Report, RunCfg};
 
 pub fn lookup(id: &str) -> Option<(&'static PropSpec, fn(&RunCfg) -> Report)> {
     Some(match id {
+        "C02" => (&c02::SPEC, c02::run as fn(&RunCfg) -> Report),
         "C15" => (&c15::SPEC, c15::run as fn(&RunCfg) -> Report),
         _ => return None,
     })
